@@ -1,7 +1,7 @@
 (* Model of a typed Cython buffer under boundscheck=True, wraparound=False,
    and of the byte-width bookkeeping of raw pointers handed to C.
    Definitions only. *)
-From Coq Require Import ZArith List Bool String.
+From Coq Require Import ZArith QArith Qround List Bool String.
 Import ListNotations.
 Open Scope Z_scope.
 
@@ -31,3 +31,22 @@ Definition widths_agree (r : prow) : bool :=
 Definition not_declared_contiguous (t : list prow) : list (string * string) :=
   map (fun r => (fst r, fst (snd r)))
       (filter (fun r => negb (snd (snd (snd (snd (snd (snd r))))))) t).
+
+(* ---- the bin number of the histogram routines ----
+   rescaled = scaling * (x - range_min) is NaN, +inf or a non-negative number
+   (x >= range_min, scaling = 1 / (max - min) >= 0 or inf); a cast of NaN to an
+   integer type is undefined: it may produce any value *)
+Inductive fval := FNaN | FPosInf | FNum (q : Q).
+Definition rescaled_ok (r : fval) : Prop :=
+  match r with FNum q => (0 <= q)%Q | _ => True end.
+(* if (rescaled < 1.0) sym = (long)(rescaled * n_bins); else sym = n_bins - 1; *)
+Definition symbolise_guarded (r : fval) (n_bins : Z) (undef : Z) : Z :=
+  match r with
+  | FNum q => if Qle_bool 1 q then n_bins - 1
+              else Qfloor (q * inject_Z n_bins)
+  | _ => n_bins - 1                      (* NaN < 1.0 and inf < 1.0 are false *)
+  end.
+(* bin = (int)(rescaled * n_bins); sym = bin < n_bins ? bin : n_bins - 1; *)
+Definition symbolise_unguarded (r : fval) (n_bins : Z) (undef : Z) : Z :=
+  let bin := match r with FNum q => Qfloor (q * inject_Z n_bins) | _ => undef end in
+  if bin <? n_bins then bin else n_bins - 1.
